@@ -9,7 +9,8 @@ CONSTANTS NITER,       \* total number of refinement iterations of the calculati
           ParA, ParB,  \* sets of values of `parallel` explored in phases A and B
           DumpSet, AllowASet, SymSet,
           WithB,       \* explore phase B
-          AllOrders    \* TRUE: every iteration order of the selected set; FALSE: ascending only
+          AllOrders,   \* TRUE: every iteration order of the selected set; FALSE: ascending only
+          RestartIters \* values of restart_iteration explored (as offsets: -1 = latest, -2, ...; see RIters)
 
 VARIABLES phase, ref, refRet, script
 mcvars == <<phase, ref, refRet, script>>
@@ -21,6 +22,7 @@ GC4   == { <<1,0,0,1>>, <<0,-1,1,0>>, <<-1,0,0,-1>>, <<0,1,-1,0>> }
 GC4v  == GC4 \cup { <<-1,0,0,1>>, <<1,0,0,-1>>, <<0,1,1,0>>, <<0,-1,-1,0>> }
 GMx   == { <<1,0,0,1>>, <<-1,0,0,1>> }
 
+RIters == {0 - r : r \in RestartIters}
 MCInit == Init /\ phase = "A" /\ ref = <<>> /\ refRet = {} /\ script = <<>>
 
 LiveIdx == {i \in 1..Len(kl) : kl[i].fac > 0 /\ kl[i].ev /\ kl[i].lev < LMAX}
@@ -48,8 +50,10 @@ StartB == /\ phase = "B" /\ pc = "idle" /\ returned = {}
                 StartFresh([par |-> p, dump |-> d, allow |-> TRUE, sym |-> mode.sym, restart |-> FALSE], n)
           /\ UNCHANGED mcvars
 RestartB == /\ phase = "B" /\ pc = "idle" /\ returned # {} /\ mode.allow /\ start + nit < NITER
-            /\ \E p \in ParB, d \in DumpSet, a \in BOOLEAN, n \in 1..(NITER - (start + nit)), listing \in SetToSeqs(DOMAIN ffiles) :
-                  StartRestart([par |-> p, dump |-> d, allow |-> (a \/ d), sym |-> mode.sym, restart |-> TRUE], n, listing)
+            /\ \E p \in ParB, d \in DumpSet, a \in BOOLEAN, listing \in SetToSeqs(DOMAIN ffiles), ri \in RIters :
+                 \E n \in 1..(NITER - ReadIter(listing, ri)) :
+                  /\ (ReadIter(listing, ri) < Max(DOMAIN ffiles) => mode.sym)  \* going back without symmetry re-creates (not re-uses) the later points
+                  /\ StartRestart([par |-> p, dump |-> d, allow |-> (a \/ d), sym |-> mode.sym, restart |-> TRUE], n, listing, ri)
             /\ UNCHANGED mcvars
 RefineB == /\ phase = "B" /\ it + start + 1 <= Len(script)
            /\ \E ord \in Orders : CellsOf(ord) = script[it + start + 1] /\ Refine(ord)
